@@ -9,6 +9,7 @@
     {"op":"c08.srte.construct","attr":14|15,"nexthop":[fam,int]|null,"nlri":{"distinguisher","color","endpoint":[fam,int]}|null}
     {"op":"c08.pmsi.construct","overlay":"mpls"|"vni"|"unsupported","leaf":n,"type":n,"label":n|null,"tunnel_id":[fam,int]|null}
     {"op":"c08.tunnel.construct","policy":{"enc","seg_first","k6","k7","k12","k13","k14","k15","k129","k128"}}  (see readPolicy)
+    {"op":"c08.flow6.reach","nexthop":[fam,int]|null,"rules":[[[type, "text" | {"prefix":[fam,int],"len":n,"offset":n}],..],..]}
     {"op":"spec.walk" | "spec.walk.attr" | "spec.walk.flags", ...}   -> forwarded to WalkOps
 
   `dispatchC08` is pure; the shared driver can call it with
@@ -22,6 +23,7 @@ import Yabgp.Model.Construct.Guards
 import Yabgp.Model.Construct.EvpnGuards
 import Yabgp.Model.Construct.SrtePmsi
 import Yabgp.Model.Construct.Tunnel
+import Yabgp.Model.Construct.Flow
 
 namespace Yabgp.C08Glue
 open Lean (Json)
@@ -118,6 +120,35 @@ def readPolicy (j : Json) : Except String Tunnel.Policy := do
          k7 := (← readNatOpt j "k7"), k12 := (← readNatOpt j "k12"), k13 := (← readNatOpt j "k13"),
          k14 := (← readNatOpt j "k14"), k15 := (← readNatOpt j "k15"), k129 := k129, k128 := k128 }
 
+/-- one component of an IPv6 flow specification; `none` = a text the model's strict readers do not cover -/
+def readComp6 (j : Json) : Except String (Option Flow6.Comp6) := do
+  match j with
+  | Json.str s => if s.toList.all Yabgp.EvfGlue.plainChar then pure (some (.ops s.toList)) else pure none
+  | _ => do
+      let a ← reqIp j "prefix"
+      let l ← (j.getObjVal? "len") >>= (·.getInt?)
+      let o ← (j.getObjVal? "offset") >>= (·.getInt?)
+      pure (some (.pfx a l o))
+
+def readRule6 (j : Json) : Except String (Option Flow6.Rule6) := do
+  let mut out : Flow6.Rule6 := []
+  for kv in (← Yabgp.Glue.asList j) do
+    match (← Yabgp.Glue.asList kv) with
+    | [k, v] =>
+      match (← readComp6 v) with
+      | some c => out := out ++ [((← k.getNat?), c)]
+      | none => return none
+    | _ => throw "bad component"
+  return some out
+
+def readRules6 (j : Json) : Except String (Option (List Flow6.Rule6)) := do
+  let mut out : List Flow6.Rule6 := []
+  for x in (← Yabgp.Glue.asList j) do
+    match (← readRule6 x) with
+    | some r => out := out ++ [r]
+    | none => return none
+  return some out
+
 def dispatchC08 (st : C08State) (j : Json) : Except String (C08State × Json) := do
   let op ← Yabgp.Glue.getStr j "op"
   match op with
@@ -162,6 +193,10 @@ def dispatchC08 (st : C08State) (j : Json) : Except String (C08State × Json) :=
                                      (← readNatOpt j "label") (← readIpOpt j "tunnel_id")))
   | "c08.tunnel.construct" => do
       pure (st, Yabgp.Glue.optHex (Tunnel.constructTunnel (← readPolicy (← j.getObjVal? "policy"))))
+  | "c08.flow6.reach" => do
+      match (← readRules6 (← j.getObjVal? "rules")) with
+      | none => pure (st, Yabgp.EvfGlue.unmodelled "text")
+      | some rs => pure (st, Yabgp.MpGlue.cresJson (Flow6.constructReach6 (← readIpOpt j "nexthop") rs))
   | _ => Yabgp.WalkGlue.dispatchWalk st j
 
 end Yabgp.C08Glue
